@@ -8,6 +8,9 @@
 
 use tinyvec::ArrayVec;
 
+#[cfg(all(hbs_lms_verif_sched, feature = "fast_verify"))]
+pub mod sched;
+
 use crate::{
     constants::{LmsTreeIdentifier, MAX_ALLOWED_HSS_LEVELS, REF_IMPL_MAX_PRIVATE_KEY_SIZE},
     hasher::HashChain,
